@@ -1,2 +1,104 @@
-/-! Stub driver: the model driver for this property is not built yet. -/
-def main : IO Unit := IO.println "unimplemented"
+import JoblibModel.ZlibFile
+import JoblibModel.IOUtil
+/-! Driver for C14 (stateless).
+
+Request  `load V FIRST ORIG K R L E T…`
+* `V`     `new` (repaired `_fill_buffer`, what the theorems of C14 are about) or `old` (the pinned tree, F7)
+* `FIRST` hex of the first `min K 8` bytes of the damaged file (`-` if empty)
+* `ORIG`  compressor the undamaged file was written with: `zlib gzip bz2 lzma xz none`
+* `K`     length of the damaged file, `R` length of the undamaged file, `L` length of the pickle stream
+* `E`     offset just after the end-of-stream marker inside the damaged file, `-` if it has none
+* `T…`    `fed:out` pairs — CPython's zlib on this file: cumulative output after `fed` compressed bytes; one
+          entry for every multiple of 8192 below `K` and one for `K` (needed for zlib/gzip only)
+Reply    `<load class> <cached-call outcome> <stream>`:
+          class ∈ `raises`, `returns-original`, `hang`, `raises|returns-original` (CPython's own codecs),
+          `unmodelled`; outcome ∈ `recomputed`, `served`, `hang`, `recomputed|served`, `unmodelled`;
+          stream = what `BinaryZlibFile(file).read()` delivers: `stream <len>`, `stream hang`,
+          `stream exc <Class>` or `stream -` when the file is not zlib/gzip.
+Malformed requests → `bad-op`. -/
+open JoblibModel JoblibModel.ZlibFile JoblibModel.IOUtil
+
+def hexVal (c : Char) : Option Nat :=
+  if '0' ≤ c ∧ c ≤ '9' then some (c.toNat - '0'.toNat)
+  else if 'a' ≤ c ∧ c ≤ 'f' then some (c.toNat - 'a'.toNat + 10)
+  else none
+
+def parseHexList : List Char → Option Bytes
+  | [] => some []
+  | a :: b :: r => do
+    let x ← hexVal a
+    let y ← hexVal b
+    let rest ← parseHexList r
+    pure (UInt8.ofNat (16 * x + y) :: rest)
+  | _ => none
+
+def parseHex (s : String) : Option Bytes :=
+  if s = "-" then some [] else parseHexList s.toList
+
+def parsePair (s : String) : Option (Nat × Nat) :=
+  match s.splitOn ":" with
+  | [a, b] => do
+    let a ← a.toNat?
+    let b ← b.toNat?
+    pure (a, b)
+  | _ => none
+
+def optNat? (s : String) : Option (Option Nat) :=
+  if s = "-" then some none else s.toNat?.map some
+
+/-- Every length `_fill_buffer` can have fed before end of stream is in the table. -/
+def tableCovers (k : Nat) (table : List (Nat × Nat)) : Bool :=
+  (List.range (k / BUFFER_SIZE + 2)).all fun i =>
+    table.any (fun t => t.1 == min (i * BUFFER_SIZE) k)
+
+def className : LoadClass → String
+  | .raises => "raises"
+  | .returnsOriginal => "returns-original"
+  | .hang => "hang"
+
+def callName : CallOutcome → String
+  | .recomputed => "recomputed"
+  | .servedFromCache => "served"
+  | .hang => "hang"
+
+def excName : ExcKind → String
+  | .valueError => "ValueError"
+  | .unsupportedOperation => "UnsupportedOperation"
+  | .zlibError => "error"
+  | .eofError => "EOFError"
+
+def handle (line : String) : String :=
+  match tokens line with
+  | "load" :: v :: first :: orig :: k :: r :: l :: e :: ts =>
+    match parseHex first, k.toNat?, r.toNat?, l.toNat?, optNat? e, ts.mapM parsePair with
+    | some first, some k, some r, some l, some e, some table =>
+      let knownOrig := ["zlib", "gzip", "bz2", "lzma", "xz", "none"].contains orig
+      if !knownOrig || first.length ≠ min k 8 || (v ≠ "new" && v ≠ "old") then "bad-op"
+      else
+        let file : Bytes := first ++ List.replicate (k - first.length) 0
+        let payload : Bytes := (List.range l).map (fun i => UInt8.ofNat (i % 251))
+        let S := if v = "new" then rawSource (scriptCodec payload e table)
+                 else rawSourceOld (scriptCodec payload e table)
+        let fuel := k / BUFFER_SIZE + 3
+        let isZ := match detectCompressor file with
+          | .zlib | .gzip => true
+          | _ => false
+        if isZ && !tableCovers k table then "bad-op"
+        else if !isZ && detectCompressor file == .notCompressed && orig ≠ "none" && k > 8 then
+          "unmodelled unmodelled stream -"
+        else
+          let stream :=
+            if isZ then
+              match readAll S fuel (openRaw file) with
+              | .ok (_, b) => "stream " ++ toString b.length
+              | .error .outOfFuel => "stream hang"
+              | .error (.exc x) => "stream exc " ++ excName x
+            else "stream -"
+          match predictLoad S (openRaw file) fuel l (orig = "none") r file with
+          | .exact c => className c ++ " " ++ callName (cachedCall c) ++ " " ++ stream
+          | .cpythonCodec => "raises|returns-original recomputed|served " ++ stream
+          | .unmodelled => "unmodelled unmodelled " ++ stream
+    | _, _, _, _, _, _ => "bad-op"
+  | _ => "bad-op"
+
+def main : IO Unit := lineLoop handle
